@@ -1201,6 +1201,77 @@ fn emit_tcs(w: &mut World, target: u32, r: &mut Rng, st: &mut Stats) -> bool {
     res.is_ok()
 }
 
+/// `WalletWrite::rewind_to_chain_state(chain state of height target, {})`, one CRewind case.
+/// Returns the highest checkpoint height left in any pool (the height the trees were cut to).
+fn emit_rewind(w: &mut World, target: u32, r: &mut Rng, st: &mut Stats) -> Option<u32> {
+    let cs = w.state_after(target).cloned()?;
+    let pre = read_ledger(&mut w.db);
+    let (blocks, mn) = blocks_and_minnotes(w);
+    let res: Result<(), String> = {
+        let db = &mut w.db;
+        match catch(|| db.rewind_to_chain_state(cs, std::collections::HashSet::new())) {
+            None => Err("PANIC".into()),
+            Some(Ok(())) => Ok(()),
+            Some(Err(e)) => {
+                let s = format!("{e:?}");
+                Err(if s.contains("RequestedRewindInvalid") {
+                    "RewindInvalid".to_string()
+                } else if s.contains("CorruptedData") {
+                    format!("Corrupted {s}")
+                } else {
+                    s
+                })
+            }
+        }
+    };
+    let post = read_ledger(&mut w.db);
+    let cut: Option<u32> = post.iter().flat_map(|l| l.0.iter().map(|e| e.0)).max();
+    if res.is_ok() && post != pre {
+        for p in 0..3 {
+            // a pool truncated to its checkpoint at `cut`
+            if let Some((h, Some(pos))) = post[p].0.last() {
+                if pre[p].0.iter().any(|e| e.0 > *h) {
+                    if w.frontiers[p].iter().any(|q| inside_ommer(*pos, *q)) {
+                        w.hazard[p] = true;
+                        st.bump("hazard_rewinds");
+                    }
+                    let pos = *pos;
+                    w.frontiers[p].retain(|q| *q <= pos);
+                }
+            }
+        }
+    }
+    if trace() {
+        eprintln!("  op rewind_to_chain_state target {target} tip {} blocks max {:?} -> {:?} cut {:?} hazard {:?}", w.tip(), blocks.last(), res.as_ref().map_err(|e| &e[..e.len().min(120)]), cut, w.hazard);
+    }
+    let which = which_roots(&pre, &post, false, r);
+    let m = check_merkle(w, &post, &which, r, st);
+    let res_s = match &res {
+        Ok(()) => "(Ok tt)".to_string(),
+        Err(e) if e == "PANIC" => PANIC.to_string(),
+        Err(e) if e.starts_with("RewindInvalid") => err("ERewindInvalid"),
+        Err(e) if e.starts_with("Corrupted") => err("ECorrupted"),
+        Err(_) => err("EOtherErr"),
+    };
+    case(format!(
+        "CRewind {} {} ({}, {}, {}) {} {} {} {} {} {} {}",
+        w3_s(&pre),
+        zl(blocks.iter().map(|x| *x as u64)),
+        opt(mn[0].map(|x| zu(x as u128))),
+        opt(mn[1].map(|x| zu(x as u128))),
+        opt(mn[2].map(|x| zu(x as u128))),
+        target,
+        res_s,
+        w3_s(&post),
+        boolc(m.roots_ok()),
+        boolc(m.wit_ok()),
+        boolc(w.hazard.iter().any(|b| *b)),
+        boolc(m.clean_ok(&w.hazard))
+    ));
+    st.bump(if res.is_ok() { "rewind_ok" } else { "rewind_err" });
+    if res.is_ok() { cut } else { None }
+}
+
 /// `scan_cached_blocks(from, limit)` on the current best chain, one CPut case.
 fn emit_scan(w: &mut World, iv: u32, from: u32, limit: usize, full: bool, r: &mut Rng, st: &mut Stats) -> Option<u32> {
     let tip = w.tip();
@@ -1568,6 +1639,30 @@ fn scripted_histories(seed: u64, r: &mut Rng, st: &mut Stats) {
         }
         st.bump("wallet_histories");
     }
+    // rewind_to_chain_state: within the pruning window, deeper than it, and to a height without a
+    // checkpoint
+    {
+        if trace() {
+            eprintln!("scripted rewind");
+        }
+        let iv = 144;
+        let mut w = mk_world(seed, 1_000_009, iv);
+        for h in 0..130u32 {
+            w.push_block(&if h % 3 == 0 { vec![] } else { vec![(h as usize % 2, h % 10 == 1)] });
+        }
+        emit_scan(&mut w, iv, BASE, 60, false, r, st);
+        emit_scan(&mut w, iv, BASE + 60, 1000, false, r, st);
+        emit_rewind(&mut w, BASE + 125, r, st);
+        emit_rewind(&mut w, BASE + 123, r, st);
+        if let Some(cut) = emit_rewind(&mut w, BASE + 10, r, st) {
+            w.fork_at(cut);
+            for _ in 0..10 {
+                w.push_block(&[(0, true), (1, false)]);
+            }
+            emit_scan(&mut w, iv, cut + 1, 1000, true, r, st);
+        }
+        st.bump("wallet_histories");
+    }
     // C06-F2: rewind into a completed subtree whose hash an earlier frontier insertion cached.
     {
         if trace() {
@@ -1641,9 +1736,13 @@ fn wallet_history(seed: u64, idx: u64, r: &mut Rng, st: &mut Stats, long: bool) 
                 2 => scanned_hi.saturating_sub(r.below(120) as u32),
                 _ => scanned_hi.saturating_sub(r.below(12) as u32),
             };
-            let use_tcs = r.chance(1, 3) && req + 1 >= BASE && req <= w.tip();
-            let got_opt = if use_tcs {
+            let kind = r.below(4);
+            let in_chain = req + 1 >= BASE && req <= w.tip();
+            let got_opt = if kind == 0 && in_chain {
                 if emit_tcs(&mut w, req, r, st) { Some(req) } else { None }
+            } else if kind == 1 && in_chain {
+                // the chain may only be replaced above the height the trees were actually cut to
+                emit_rewind(&mut w, req, r, st).map(|cut| cut.max(req))
             } else {
                 emit_trunc(&mut w, req, r, st)
             };
@@ -1750,7 +1849,32 @@ fn repro_f2() {
     eprintln!("root_at_checkpoint_id(5) = {:?}\ntrue root               = {:?}", t.root_at_checkpoint_id(&5), want.root());
 }
 
+/// Exploration aid (`C06_EXPLORE_REWIND=1`): rewind to a height without a checkpoint, then a reorg
+/// exactly above the target.
+fn explore_rewind(seed: u64) {
+    let mut r = Rng::new(seed, 99);
+    let mut st = Stats::default();
+    let iv = 144;
+    let mut w = mk_world(seed, 2_000_001, iv);
+    for h in 0..130u32 {
+        w.push_block(&if h % 3 == 0 { vec![] } else { vec![(h as usize % 2, h % 10 == 1)] });
+    }
+    emit_scan(&mut w, iv, BASE, 1000, false, &mut r, &mut st);
+    emit_rewind(&mut w, BASE + 123, &mut r, &mut st);
+    w.fork_at(BASE + 123);
+    for _ in 0..8 {
+        w.push_block(&[(0, true), (1, false)]);
+    }
+    emit_scan(&mut w, iv, BASE + 124, 1000, true, &mut r, &mut st);
+    emit_scan(&mut w, iv, BASE + 125, 1000, true, &mut r, &mut st);
+    eprintln!("{:?}", st.n);
+}
+
 fn main() {
+    if std::env::var("C06_EXPLORE_REWIND").is_ok() {
+        explore_rewind(1);
+        return;
+    }
     if std::env::var("C06_REPRO").is_ok() {
         repro_f2();
         return;
@@ -1759,12 +1883,12 @@ fn main() {
     if std::env::var("C06_LOUD").is_err() { quiet_panics(); }
     let mut st = Stats::default();
     let mut r = Rng::new(a.seed, 6);
-    let npure = a.budget(900, 12000);
+    let npure = a.budget(700, 12000);
     pure_stream(&mut r, npure, &mut st);
     let mut r2 = Rng::new(a.seed, 7);
     mem_stream(&mut r2, a.budget(60, 1500), &mut st);
     let mut r3 = Rng::new(a.seed, 8);
-    let nh = a.budget(9, 150);
+    let nh = a.budget(6, 150);
     scripted_histories(a.seed, &mut r3, &mut st);
     if std::env::var("C06_SCRIPTS_ONLY").is_ok() {
         return;
